@@ -111,14 +111,22 @@ PROPS = {
     "C17": {
         "targets": ["spowtd.simulate_rise:compute_rise_curve", "spowtd.simulate_rise:compute_rise_curve#mean",
                     "lemma:shifted_sum", "spowtd.specific_yield:SpecificYield.integrate",
-                    "spowtd.spline:Spline.integrate", "lemma:telescoping"],
+                    "spowtd.spline:Spline.integrate", "lemma:telescoping",
+                    "spowtd.simulate_rise:simulate_rise#observations"],
         "bounded": [{"run": "bounded.simulate_checks:run_C17",
-                     "what": "bounded stand-in for the mean clause, refinement / monotonicity corollaries and the tabulated output of "
-                             "simulate_rise (real functions, master-curve tables in a database built from the real schema)"}],
+                     "what": "refinement / monotonicity corollaries, validation of the assumed constructor contract and the tabulated "
+                             "(non --observations) output of simulate_rise (real functions, master-curve tables in a database built "
+                             "from the real schema)"}],
         "level_text": "Unbounded proof that compute_rise_curve returns, for any grid, values whose pairwise differences are "
                       "G(level_j) - G(level_i), G being the antiderivative of the specific yield from C14's proved contract "
-                      "(loop invariant + telescoping lemma proved by induction). Mean and output layout are a bounded stand-in.",
-        "level_note": "Assumed: numpy cumsum / mean as in libspec; the FITPACK contracts of C14; yaml.dump round trip (bounded).",
+                      "(loop invariant + telescoping lemma proved by induction), and whose mean is the requested one (shifted-sum "
+                      "lemma, real arithmetic). At command level, `simulate rise --observations` is under contract: the one value it "
+                      "dumps is that curve on exactly the measured master-curve levels in ascending order, with the mean of the "
+                      "measured storage (the call site relies on both verified contracts of compute_rise_curve). The tabulated "
+                      "output (strings mixed with numbers) is a bounded stand-in.",
+        "level_note": "Assumed: numpy cumsum / mean as in libspec; the FITPACK contracts of C14; create_specific_yield_function "
+                      "(constructors, PyYAML) returns a specific-yield object over a non-degenerate spline; what yaml.dump writes for "
+                      "a list of floats (bounded).",
     },
     "C18": {
         "targets": ["spowtd.simulate_recession:compute_recession_curve", "lemma:shifted_sum",
